@@ -30,7 +30,7 @@ META = {
     'technique': 'Rocq/Coq proof over hand-written executable model + vm_compute correspondence + live differential oracle',
 }
 
-IMPORTS = ['Model.C14_Transport', 'Model.C14_Buffered', 'Model.C14_Defrag', 'Model.C14_Check']
+IMPORTS = ['Model.C14_Transport', 'Model.C14_Buffered', 'Model.C14_Defrag', 'Model.C14_Check', 'Model.C14_AsyncSM']
 FLUSH_KEY = 'flush-wouldblock'
 FLUSH_WHAT = ('BufferedSocket.flush() uses socket.sendall: a would-block while a buffered flight is flushed escapes the '
               'generator API as socket.error(EWOULDBLOCK) instead of "yield 1", the connection is torn down and the '
@@ -74,7 +74,8 @@ def check_recv_direct(ctx, case, impl):
         c2 = dict(case, script=U.canon(stream))
         i2 = U.impl_recv(c2)
         if (i2['out'], i2['records']) != (impl['out'], impl['records']) and impl['out'] != ('pending',):
-            bad = 'outcome %r differs from the one-chunk run %r' % (impl['out'], i2['out'])
+            bad = 'outcome %r with %d records differs from the one-chunk run: %r with %d records' % (
+                impl['out'], len(impl['records']), i2['out'], len(i2['records']))
     if bad:
         ctx.violation('unit-recv:%s:%s' % ('buffered' if case['buffered'] else 'raw', impl['out'][0]),
                       'RecordSocket.recv over a scripted socket: ' + bad,
@@ -202,7 +203,7 @@ def run(ctx):
     pool = multiprocessing.Pool(vlib.NPROC)
     async_sys = pool.map_async(S.worker, tasks, chunksize=1)
     # ---- proofs
-    res = vlib.proof_stage(ctx, 'Props/C14.v', model_targets=['Model/C14_Check.vo'])
+    res = vlib.proof_stage(ctx, 'Props/C14.v', model_targets=['Model/C14_Check.vo', 'Model/C14_AsyncSM.vo'])
     ctx.log('proof stage ok=%s failing=%s' % (res['ok'], res['failing']))
     ctx.cov['trusted_base'] = [
         'Coq 8.16.1 kernel + vm_compute (case evaluation)',
@@ -214,12 +215,20 @@ def run(ctx):
                         'socket.sendall on a non-blocking socket raises on would-block with an unknown amount sent',
                         'TLS coroutines above RecordSocket (L4/L5) are covered by the live differential oracle only']
     rng = ctx.rng
+    # ---- single_io_path: the only socket I/O sites of L3-L5 are the modelled functions
+    sites = U.io_sites(vlib.REPO)
+    ctx.cov['io_sites'] = ['%s %s %s' % s_ for s_ in sites]
+    ctx.count('single-io-path', len(sites), [s_ for s_ in sites])
+    if sites != U.IO_EXPECTED:
+        tie_broken = 'socket I/O sites changed: unexpected %s, missing %s' % (
+            [s_ for s_ in sites if s_ not in U.IO_EXPECTED], [s_ for s_ in U.IO_EXPECTED if s_ not in sites])
     # ---- unit level: generate, run implementation, direct oracles
-    n_recv, n_send, n_buf, n_def, n_feed, n_mem = (360, 150, 150, 150, 40, 80) if quick else (6000, 3000, 3000, 3000, 600, 1200)
+    n_recv, n_send, n_buf, n_def, n_feed, n_mem = (300, 150, 150, 150, 40, 80) if quick else (4000, 2000, 2000, 2000, 400, 800)
     recv_cases, recv_lits = [], []
     # corpus: boundary cases first
-    for case in corpus_recv():
+    for case in corpus_recv() + sweep_recv(quick):
         recv_cases.append(case)
+    n_recv += len(recv_cases)
     while len(recv_cases) < n_recv:
         recv_cases.append(U.gen_recv_case(rng, big=not quick))
     for i, case in enumerate(recv_cases):
@@ -269,6 +278,12 @@ def run(ctx):
         found |= bad
         feed_lits += lits
         ctx.count('unit-defrag-refragment', 4, [(len(fc['streams'][22]) // 16, len(fc['streams'][21]), len(fc['streams'][20]))])
+    asm_lits = []
+    for _ in range(n_def):
+        case = U.gen_asm_case(rng)
+        obs = U.impl_asm(case)
+        asm_lits.append(U.asm_case_lit(case, obs))
+        ctx.count('unit-asm', 1, [tuple(sorted(set((str(o[1]), len(o[0])) for o in obs)))])
     ctx.log('unit level (implementation vs direct oracles): recv %d, send %d, buffered %d, defrag %d+%d'
             % (len(recv_lits), len(send_lits), len(buf_lits), len(def_lits), len(feed_lits)))
     # ---- unit level: model against implementation (vm_compute)
@@ -277,7 +292,8 @@ def run(ctx):
                   ('C14s', 'SendCase', ['chk_send'], send_lits, 'send'),
                   ('C14b', 'BufCase', ['chk_buf'], buf_lits, 'buffered'),
                   ('C14d', 'DefragCase', ['chk_defrag'], def_lits, 'defrag'),
-                  ('C14f', 'FeedCase', ['chk_feed'], feed_lits, 'feed')]
+                  ('C14f', 'FeedCase', ['chk_feed'], feed_lits, 'feed'),
+                  ('C14a', 'AsmCase', ['chk_asm'], asm_lits, 'asyncstatemachine')]
         for tag, ty, fns, lits, nm in groups:
             shard = max(10, (len(lits) + 5) // 6) if quick else 150
             bads, errs = vlib.coq_bad_indices(tag, IMPORTS, ty, fns, lits, shard=shard)
@@ -341,6 +357,30 @@ def run(ctx):
     vlib.broken_proof_verdict(ctx, res, found)
 
 
+def sweep_recv(quick):
+    """terminal event (EOF / b'' / ECONNRESET) at EVERY byte position of a record stream, for the
+    one-chunk and the 1-byte chunking with a would-block before every chunk, plain and buffered"""
+    stream = bytes([22, 3, 3, 0, 4]) + b'abcd' + bytes([0x80, 2]) + b'xy'
+    if not quick:
+        stream += bytes([23, 3, 4, 0, 1, 9, 0, 8, 8]) + b'12345678' + bytes([21, 3, 3, 0, 2, 1, 0])
+    out = []
+    for pos in range(len(stream) + 1):
+        for term in (('E',), ('D', b''), ('F', errno.ECONNRESET)):
+            for style in ('one', 'bytes'):
+                for buffered in (False, True):
+                    pre = stream[:pos]
+                    if style == 'one':
+                        sc = [('D', pre)] if pre else []
+                    else:
+                        sc = []
+                        for i in range(len(pre)):
+                            sc += [('F', errno.EWOULDBLOCK), ('D', pre[i:i + 1])]
+                    sc = sc + [term, ('D', stream[pos:])]       # what follows the terminal must not matter
+                    out.append(dict(buffered=buffered, limit=16384, tls13=False, k=2 if quick else 4, script=sc,
+                                    cls=('sweep', term[0] + style)))
+    return out
+
+
 def corpus_recv():
     """boundary cases kept permanently"""
     E = errno.EWOULDBLOCK
@@ -365,6 +405,10 @@ def corpus_recv():
             dict(base, script=[('D', b'\x00\x04\x05abcd')]),
             dict(base, script=[('D', b'\x00\x09\x01' + b'x' * 9)]),
             dict(base, limit=64, script=[('D', hdr(23, 2112) + b'y' * 2112)]),
+            # reads and chunks larger than BufferedSocket's 4096-byte read-ahead
+            dict(base, script=[('D', hdr(23, 5000)), ('D', b'z' * 6000)]),
+            dict(base, script=[('D', hdr(23, 5000) + b'z' * 6000)]),
+            dict(base, script=[('D', hdr(23, 4091) + b'z' * 4092)], k=2),
         ]
     return out
 
